@@ -63,7 +63,8 @@ Kernels == {
 KernelByName(n) == CHOOSE k \in Kernels : k.name = n
 
 \* what the host may type at the prompt
-Inspections == { B("PRINT X;I"), B("PRINT 1/0"), B("LIST"), B("NEXT Q9"), B("PRINT G(0)") }      \* NEXT Q9 fails (no such loop) and must disturb nothing
+Inspections == { B("PRINT X;I"), B("PRINT 1/0"), B("LIST"), B("NEXT Q9"), B("PRINT G(0)"),
+                 B("DEF F(Q)=Q"), B("PRINT 1:PRINT 2") }      \* a DEF typed at the prompt is refused and must change nothing; a line of two statements is still one statement per call      \* NEXT Q9 fails (no such loop) and must disturb nothing
 Probes == { B("RETURN"), B("NEXT I"), B("READ Q"), B("PRINT F(1)"), B("GOTO 20"), B("GOTO 30"), B("X=7") }
 Edits == { B("15 REM"), B("10"), B("20 %"), B("100 RETURN") }
 Commands0 == { B("RUN"), B("CONT") }
